@@ -21,6 +21,7 @@ fn main() {
         Some("c18-upcast") => more::c18_upcast(),
         Some("c10-mixed") => more::c10_mixed(),
         Some("c16-builders") => more::c16_builders(),
+        Some("c16-subst") => more::c16_subst(),
         Some("c08-resolve") => more::c08_resolve(),
         _ => {
             eprintln!("usage: vreplay fmt-search <maxlen> <seed> | fmt-one <string> | fmt-repeat <string> <count>");
